@@ -10,6 +10,7 @@
  *   ecss  <curve-id> <seedhex> 0      <msghex> <mut>...
  *   rsa   <bits> <keyseedhex> <flag> <msghex> <mut>...
  *   bls   <seedhex> <msghex> <mut>...                         (pc_param_set_any)
+ *   bbs | zss <seedhex> <flag> <msghex> <mut>...              Boneh-Boyen short signatures / Zhang-Safavi-Naini-Susilo
  *   --list                                                    print the curve ids ep_param_set accepts
  *
  * Mutations (applied to a fresh copy of the honest triple; the library is used only to CONSTRUCT
@@ -18,8 +19,9 @@
  *   EC (r = first, s = second component): rx:<bit> sx:<bit> r+n s+n n-s n-r r=0 s=0 r=n s=n r=1 s=1 -r -s swap
  *       q=inf qx:<bit> qy:<bit> q=-q q=2q q=G q=foreign q=other (a point of y^2 = x^3 + ax + b + 1)
  *       infkey (identity key with the matching forged pair)  k0 (ECSS: commitment at infinity, made with d)
- *   RSA: sx:<bit> s+N zp:<j> droplast lz s=0 s=1 s=N s=N-1 N-s q=foreign emx:<off>:<xx> emtop em=<hex>
+ *   RSA: sx:<bit> s+N zp:<j> droplast lz s=0 s=1 s=N s=N-1 N-s q=foreign emx:<off>:<xx> emtop em=<hex> emp=<hex>
  *   BLS: sx:<bit> sy:<bit> s=inf s=-s s=2s s=H s=foreign q=foreign q=inf q=-q q=2q qx:<bit> q+T infpair
+ *   BBS (sig in G1, key in G2) / ZSS (sig in G2, key in G1): the same point mutations, s+T (ZSS), infkey
  */
 #include "vh.h"
 
@@ -241,8 +243,10 @@ static const char *pad_name(void) {
 static uint8_t sig0[MAXM], sig[MAXM];
 static size_t slen0, slen;
 
+static int rsa_crash;
 static void rsa_event(const char *mut, rsa_t pk, int ret, int err) {
 	vh_begin("rsa_ver");
+	vh_int("crash", rsa_crash);
 	vh_str("pad", pad_name());
 	vh_int("mdl", (long)RLC_MD_LEN);
 	vh_str("mut", mut);
@@ -251,9 +255,42 @@ static void rsa_event(const char *mut, rsa_t pk, int ret, int err) {
 	vh_bytes("sig", sig, slen);
 	vh_bytes("msg", msg, len);
 	vh_int("flag", flag);
-	vh_int("ret", ret); vh_int("err", err); vh_int("code", vh_code());
+	vh_int("ret", ret); vh_int("err", err); vh_int("code", rsa_crash ? 0 : vh_code());
 	vh_end();
 }
+
+#if CP_RSAPD == BASIC
+#include <sys/wait.h>
+/* The basic-padding verifier writes the recovered payload into a fixed-size stack buffer; an abnormal end of
+ * the call must become a field of THIS event (so that it can be judged), not the end of the driver: the call
+ * runs in a forked child that reports ret / err through a pipe. */
+static int guarded_ver(uint8_t *sg, size_t sl, const uint8_t *m, size_t ml, int fl, rsa_t pk, int *err) {
+	int fd[2], st = 0, res[2] = { -1, 0 };
+	pid_t pid;
+	rsa_crash = 0;
+	fflush(vh_out);
+	if (pipe(fd) != 0) exit(2);
+	pid = fork();
+	if (pid < 0) exit(2);
+	if (pid == 0) {
+		int e, r = -1;
+		signal(SIGSEGV, SIG_DFL); signal(SIGBUS, SIG_DFL); signal(SIGABRT, SIG_DFL); signal(SIGILL, SIG_DFL); signal(SIGFPE, SIG_DFL);
+		close(fd[0]);
+		VH_TRY(e, r = cp_rsa_ver(sg, sl, m, ml, fl, pk));
+		res[0] = r; res[1] = e;
+		if (write(fd[1], res, sizeof(res)) < 0) {}
+		_exit(0);
+	}
+	close(fd[1]);
+	if (read(fd[0], res, sizeof(res)) != (ssize_t)sizeof(res)) { res[0] = -1; res[1] = 0; }
+	close(fd[0]);
+	waitpid(pid, &st, 0);
+	if (WIFSIGNALED(st)) rsa_crash = WTERMSIG(st);
+	else if (!WIFEXITED(st) || WEXITSTATUS(st) != 0) rsa_crash = 255;
+	*err = res[1];
+	return res[0];
+}
+#endif
 
 /* sig <- EM^d mod N as a k-byte string; returns 0 when EM >= N */
 static int raw_sign(const bn_t em) {
@@ -351,6 +388,13 @@ static void do_rsa(void) {
 			bn_mxp(T, V, pub->e, pub->crt->n);
 			bn_set_bit(T, bn_bits(pub->crt->n) - 1, 1);
 			skip = !raw_sign(T);
+		} else if (strncmp(m, "emp=", 4) == 0) {
+			/* a PSS-shaped encoded message built by the generator; its bits from emBits = modBits - 1 upwards are cleared */
+			size_t l = tok_bytes(m + 4, buf), b;
+			bn_read_bin(T, buf, l);
+			for (b = bn_bits(pub->crt->n) - 1; b < 8 * l; b++) bn_set_bit(T, b, 0);
+			bn_trim(T);
+			skip = !raw_sign(T);
 		} else if (m[0] == 'e' && m[1] == 'm' && m[2] == '=') {
 			size_t l = tok_bytes(m + 3, buf);
 			if (l == 0) bn_zero(T); else bn_read_bin(T, buf, l);
@@ -359,7 +403,11 @@ static void do_rsa(void) {
 		if (skip) { vh_begin("skip"); vh_str("mut", m); vh_end(); continue; }
 		ret = -1;
 		memcpy(buf2, sig, slen);
+#if CP_RSAPD == BASIC
+		ret = guarded_ver(buf2, slen, msg, len, flag, pk, &err);
+#else
 		VH_TRY(err, ret = cp_rsa_ver(buf2, slen, msg, len, flag, pk));
+#endif
 		rsa_event(m, pk, ret, err);
 	}
 }
@@ -403,6 +451,8 @@ static void bls_hdr(void) {
 	fprintf(vh_out, ",\"tb\":"); vh_fp2_raw(ep2_curve_get_b());
 	vh_ep2("G2", G2G);
 }
+
+static void twist_torsion(ep2_t tt);
 
 static void do_bls(void) {
 	int err, ret = -1, i;
@@ -450,20 +500,9 @@ static void do_bls(void) {
 		} else if (strncmp(m, "qx:", 3) == 0) { flip_fp(((ep2_st *)PK)->x[0], atol(m + 3)); bn_zero(U);
 		} else if (!strcmp(m, "q+T")) {
 			/* T = [n]X for a random point X of the twist: order coprime to n; pk + T is on the twist, outside G2 */
-			fp2_t t;
-			fp2_null(t); fp2_new(t);
-			do {
-				do {
-					fp2_rand(((ep2_st *)TT)->x);
-					ep2_rhs(t, ((ep2_st *)TT)->x);
-				} while (!fp2_srt(((ep2_st *)TT)->y, t));
-				fp2_set_dig(((ep2_st *)TT)->z, 1);
-				TT->coord = BASIC;
-				ep2_mul_basic(TT, TT, N);
-			} while (ep2_is_infty(TT));
+			twist_torsion(TT);
 			ep2_add(PK, PK, TT); ep2_norm(PK, PK);
 			bn_zero(U);
-			fp2_free(t);
 		} else { fprintf(stderr, "unknown mutation %s\n", m); exit(2); }
 		ret = -1; hm_n = 0;
 		VH_TRY(err, ret = cp_bls_ver(SG, msg, len, PK));
@@ -478,6 +517,120 @@ static void do_bls(void) {
 		vh_int("ret", ret); vh_int("err", err); vh_int("code", vh_code());
 		vh_end();
 	}
+}
+/* a point T # O of the twist with order coprime to n: [n]X for a random point X of E'(F_p^2) */
+static void twist_torsion(ep2_t tt) {
+	fp2_t t;
+	fp2_null(t); fp2_new(t);
+	do {
+		do {
+			fp2_rand(((ep2_st *)tt)->x);
+			ep2_rhs(t, ((ep2_st *)tt)->x);
+		} while (!fp2_srt(((ep2_st *)tt)->y, t));
+		fp2_set_dig(((ep2_st *)tt)->z, 1);
+		tt->coord = BASIC;
+		ep2_mul_basic(tt, tt, N);
+	} while (ep2_is_infty(tt));
+	fp2_free(t);
+}
+
+/* mutations of a G1 point A (ghost logarithm LA w.r.t. the G1 generator, 0 = unknown/invalid), other honest value A2/LA2 */
+static int g1_mut(const char *m, char c, g1_t A, bn_t LA, const g1_t A2, const bn_t LA2) {
+	if (m[0] != c) return 0;
+	if (m[1] == 'x' && m[2] == ':') { flip_fp(A->x, atol(m + 3)); bn_zero(LA); return 1; }
+	if (m[1] == 'y' && m[2] == ':') { flip_fp(A->y, atol(m + 3)); bn_zero(LA); return 1; }
+	if (!strcmp(m + 1, "=inf")) { g1_set_infty(A); bn_zero(LA); return 1; }
+	if (!strncmp(m + 1, "=-", 2)) { g1_neg(A, A); if (!bn_is_zero(LA)) bn_sub(LA, N, LA); return 1; }
+	if (!strncmp(m + 1, "=2", 2)) { g1_dbl(A, A); g1_norm(A, A); bn_dbl(LA, LA); bn_mod(LA, LA, N); return 1; }
+	if (!strcmp(m + 1, "=foreign")) { g1_copy(A, A2); bn_copy(LA, LA2); return 1; }
+	return 0;
+}
+static int g2_mut(const char *m, char c, g2_t A, bn_t LA, const g2_t A2, const bn_t LA2) {
+	if (m[0] != c) return 0;
+	if (m[1] == 'x' && m[2] == ':') { flip_fp(((ep2_st *)A)->x[0], atol(m + 3)); bn_zero(LA); return 1; }
+	if (m[1] == 'y' && m[2] == ':') { flip_fp(((ep2_st *)A)->y[1], atol(m + 3)); bn_zero(LA); return 1; }
+	if (!strcmp(m + 1, "=inf")) { g2_set_infty(A); bn_zero(LA); return 1; }
+	if (!strncmp(m + 1, "=-", 2)) { g2_neg(A, A); if (!bn_is_zero(LA)) bn_sub(LA, N, LA); return 1; }
+	if (!strncmp(m + 1, "=2", 2)) { g2_dbl(A, A); g2_norm(A, A); bn_dbl(LA, LA); bn_mod(LA, LA, N); return 1; }
+	if (!strcmp(m + 1, "=foreign")) { g2_copy(A, A2); bn_copy(LA, LA2); return 1; }
+	if (!strcmp(m + 1, "+T")) { twist_torsion(TT); ep2_add(A, A, TT); ep2_norm(A, A); bn_zero(LA); return 1; }
+	return 0;
+}
+
+/* Boneh-Boyen (zss = 0: signature in G1, key in G2) and ZSS (zss = 1: signature in G2, key in G1):
+ * sigma = [1 / (H(m) + d)] generator; every event carries the ghost logarithms of key and signature */
+static gt_t ZZ;
+static g1_t A1, A1o, A1f;
+static g2_t A2, A2o, A2f;
+static void do_inv(int zss) {
+	int err, ret = -1, i;
+	bn_t LS, LK, LSo, LSf;
+	if (pc_ok < 0) {
+		VH_TRY(err, ret = pc_param_set_any());
+		pc_ok = (err == 0 && ret == RLC_OK && vh_code() == 0);
+		cur_id = -1;
+	}
+	if (!pc_ok) { vh_begin("BADCURVE"); vh_int("id", -1); vh_end(); return; }
+	if (cur_id != -2) { pc_param_set_any(); cur_id = -2; }
+	bn_null(LS); bn_null(LK); bn_null(LSo); bn_null(LSf); bn_new(LS); bn_new(LK); bn_new(LSo); bn_new(LSf);
+	pc_get_ord(N);
+	g2_get_gen(G2G); g1_get_gen(HP);
+	reseed(vh_tok[1]);
+	flag0 = atoi(vh_tok[2]);
+	len0 = tok_bytes(vh_tok[3], msg0);
+	/* honest key (A?o), foreign key (A?f) */
+	if (zss) { VH_TRY(err, ret = cp_zss_gen(D, A1o, ZZ)); cp_zss_gen(D2, A1f, ZZ); }
+	else { VH_TRY(err, ret = cp_bbs_gen(D, A2o, ZZ)); cp_bbs_gen(D2, A2f, ZZ); }
+	vh_begin(zss ? "zss_gen" : "bbs_gen");
+	bls_hdr(); vh_ep("G1", HP);
+	vh_bn("d", D);
+	if (zss) vh_ep("pk", A1o); else vh_ep2("pk", A2o);
+	vh_int("ret", ret); vh_int("err", err); vh_int("code", vh_code());
+	vh_end();
+	if (zss) { VH_TRY(err, ret = cp_zss_sig(PK0, msg0, len0, flag0, D)); }
+	else { VH_TRY(err, ret = cp_bbs_sig(SG0, msg0, len0, flag0, D)); }
+	vh_begin(zss ? "zss_sig" : "bbs_sig");
+	vh_int("ret", ret); vh_int("err", err); vh_int("code", vh_code());
+	vh_end();
+	for (i = 4; i < vh_ntok; i++) {
+		const char *m = vh_tok[i];
+		memcpy(msg, msg0, len0); len = len0; flag = flag0;
+		bn_copy(LK, D);
+		if (zss) { g2_copy(PK, PK0); g1_copy(A1, A1o); } else { g1_copy(SG, SG0); g2_copy(A2, A2o); }
+		/* the signature's logarithm is not needed by the spec (it recomputes the point); LS is scratch */
+		bn_set_dig(LS, 1); bn_set_dig(LSf, 1);
+		if (!strcmp(m, "honest")) {
+		} else if (m[0] == 'm' && m[1] == '=') { len = tok_bytes(m + 2, msg);
+		} else if (m[0] == 'f' && m[1] == '=') { flag = atoi(m + 2); len = tok_bytes(strchr(m, ':') + 1, msg);
+		} else if (!strcmp(m, "s=foreign")) {
+			if (zss) cp_zss_sig(PK, msg, len, flag, D2); else cp_bbs_sig(SG, msg, len, flag, D2);
+		} else if (!strcmp(m, "infkey")) {
+			/* identity public key and sigma = [1 / H(m)] generator */
+			uint8_t h[RLC_MD_LEN];
+			if (flag) { if (len) bn_read_bin(T, msg, len); else bn_zero(T); }
+			else { md_map(h, msg, len); bn_read_bin(T, h, RLC_MD_LEN); }
+			bn_mod(T, T, N); bn_mod_inv(T, T, N);
+			bn_zero(LK);
+			if (zss) { g1_set_infty(A1); g2_mul_gen(PK, T); } else { g2_set_infty(A2); g1_mul_gen(SG, T); }
+		} else if (!zss && (g1_mut(m, 's', SG, LS, SG0, LSf) || g2_mut(m, 'q', A2, LK, A2f, D2))) {
+		} else if (zss && (g2_mut(m, 's', PK, LS, PK0, LSf) || g1_mut(m, 'q', A1, LK, A1f, D2))) {
+		} else { fprintf(stderr, "unknown mutation %s\n", m); exit(2); }
+		ret = -1;
+		if (zss) { VH_TRY(err, ret = cp_zss_ver(PK, msg, len, flag, A1, ZZ)); }
+		else { VH_TRY(err, ret = cp_bbs_ver(SG, msg, len, flag, A2, ZZ)); }
+		vh_begin(zss ? "zss_ver" : "bbs_ver");
+		bls_hdr(); vh_ep("G1", HP);
+		vh_str("mut", m);
+		vh_int("honest", strcmp(m, "honest") == 0);
+		if (zss) { vh_ep2("S", PK); vh_ep("pk", A1); } else { vh_ep("S", SG); vh_ep2("pk", A2); }
+		vh_bn("gd", LK);
+		vh_bytes("msg", msg, len);
+		vh_int("flag", flag);
+		vh_int("mdl", (long)RLC_MD_LEN);
+		vh_int("ret", ret); vh_int("err", err); vh_int("code", vh_code());
+		vh_end();
+	}
+	bn_free(LS); bn_free(LK); bn_free(LSo); bn_free(LSf);
 }
 #endif
 
@@ -516,6 +669,9 @@ int main(int argc, char **argv) {
 	g1_new(SG0); g1_new(SG); g1_new(HP); g1_new(SG2); ep_new(hm_out);
 	g2_null(PK0); g2_null(PK); g2_null(PK2); g2_null(TT); g2_null(G2G);
 	g2_new(PK0); g2_new(PK); g2_new(PK2); g2_new(TT); g2_new(G2G);
+	gt_null(ZZ); gt_new(ZZ);
+	g1_null(A1); g1_null(A1o); g1_null(A1f); g1_new(A1); g1_new(A1o); g1_new(A1f);
+	g2_null(A2); g2_null(A2o); g2_null(A2f); g2_new(A2); g2_new(A2o); g2_new(A2f);
 #endif
 	while (vh_next(in)) {
 		const char *op = vh_tok[0];
@@ -529,6 +685,8 @@ int main(int argc, char **argv) {
 #endif
 #if defined(WITH_PC)
 		else if (!strcmp(op, "bls")) do_bls();
+		else if (!strcmp(op, "bbs")) do_inv(0);
+		else if (!strcmp(op, "zss")) do_inv(1);
 #endif
 		else { fprintf(stderr, "unknown op %s\n", op); return 2; }
 		fflush(vh_out);
